@@ -189,6 +189,13 @@ def run(c):
         other = rng.choice([rs for cd, rs in statuses if rs != r["reason"]])
         muts.append(("reason-of-another-status", ver + b" " + code + b" " + other.encode() + b"\r\n" + rest))
         muts.append(("reason-garbage", ver + b" " + code + b" " + rng.choice([b"Whatever", b"OKAY", b"x", reason + b"x", reason[:-1]]) + b"\r\n" + rest))
+        # wordings other servers and older / newer RFCs use for the same code: not the registered phrase, hence a mismatch
+        ALT = {"203": ["Non-Authoritative Information"], "302": ["Moved Temporarily", "Object Moved"], "408": ["Request Time-out"], "413": ["Request Entity Too Large", "Payload Too Large", "Content Too Large"],
+               "414": ["Request-URI Too Long", "Request-URI Too Large", "URI Too Long"], "416": ["Requested Range Not Satisfiable", "Range Not Satisfiable"], "418": ["I'm a teapot", "I'm a Teapot"], "422": ["Unprocessable Entity", "Unprocessable Content"],
+               "504": ["Gateway Time-out", "Gateway Timeout"], "500": ["Internal Error", "Server Error"], "200": ["Okay", "Success"], "404": ["File Not Found", "Not Here"], "206": ["Partial"], "400": ["Bad Syntax"], "505": ["Version Not Supported"]}
+        for alt in ALT.get(code.decode("latin-1"), []):
+            if alt.strip().lower().encode() != reason.strip().lower():   # letter case is not a different phrase (the library compares case-insensitively)
+                muts.append(("reason-alternative-wording", ver + b" " + code + b" " + alt.encode() + b"\r\n" + rest))
         if multi:
             head, body = raw.split(b"\r\n\r\n", 1)
             if body.startswith(BOUNDARY_LINE + b"\r\n"):
@@ -223,7 +230,7 @@ def run(c):
             meta[cid] = (kind, multi, m, r)
     obs = core.run_cases(cases)
     for k in ("status-unregistered", "status-not-a-number", "reason-of-another-status", "reason-garbage", "opening-boundary-removed", "closing-boundary-removed", "part-blank-line-removed",
-              "part-content-range-removed", "part-content-type-removed", "truncated-inside-part-headers", "truncated-inside-last-part-headers"):
+              "part-content-range-removed", "part-content-type-removed", "truncated-inside-part-headers", "truncated-inside-last-part-headers", "reason-alternative-wording"):
         c.need("corruption " + k)
     for cs in cases:
         o = obs.get(cs.id)
